@@ -90,7 +90,7 @@ def mc_impl(ctx, name, prog, invs, covered, workers=4, timeout=1500, **kw):
                  expect_violation=kw.get("expect_violation", False))
     C.log("mpmc: MpmcImpl %s %s: %d states, %.1fs%s" % (prog, name, r["distinct"], r["wall_s"], (" violated " + ",".join(r["violated"])) if r["violated"] else ""))
     acts = {k.split("!")[1]: v for k, v in r.get("actions", {}).items() if k.startswith("MpmcImpl!")}
-    if not r["violated"] and not kw.get("props"):
+    if not r["violated"] and not re.search(r"Temporal propert(y|ies) .*violated", r["output"]):
         want = {a for o in PROGRAMS[prog][1] for a in OP_ACTIONS[o]}
         if kw.get("fixed"):
             want -= {"SendPush", "RecvLoadClosed"}
@@ -203,8 +203,8 @@ def run(ctx):
 
     # ---------------------------------------------------------------- 2. the I level
     model = {"strict_holds_without_closer": [], "weak_holds_with_closer": [], "liveness": [], "patched_model": []}
-    no_close = ["P_QUICK"] if quick else ["P_MISC", "P_S2RR", "P_2S2R", "P_MISC2"]
-    with_close = ["P_SRCT"] if quick else ["P_SRC", "P_SRCT", "P_SRRC", "P_S2RRC", "P_S2R2C", "P_2S2RC"]
+    no_close = ["P_QUICK"] if quick else ["P_QUICK", "P_S2RR"]
+    with_close = [] if quick else ["P_S2R2C"]             # P_SRCT: together with the liveness run below
     for p in no_close:
         r = mc_impl(ctx, "nc_" + p, p, ["LinStrict"] + BASE_INV, covered, workers=6)
         if r["violated"]:
@@ -227,12 +227,17 @@ def run(ctx):
         cex = ["%s(%s)" % s for s in steps]
     model["strict_with_closer"] = {"program": "P_SRC", "violated": r["violated"], "counterexample_actions": cex}
     # no lost wake-up as a liveness property under weak fairness, and progress
-    for p in (["P_SRC"] if quick else ["P_SRC", "P_2S2R", "P_SRCT"]):
-        r = mc_impl(ctx, "live_" + p, p, [], covered, spec="FairSpec", props=["NoLostWakeup", "Progress"], fixed=fixed)
-        if "Temporal properties were violated" in r["output"] or r["violated"]:
-            ctx.violation("X02|model|%s|liveness" % p, {"what": "NoLostWakeup / Progress violated under weak fairness", "tail": r["output"][-2500:]})
+    # (the same run checks the invariants: with a closer all but LinStrict, without a closer all)
+    for p in (["P_SRCT"] if quick else ["P_SRCT", "P_2S2R"]):
+        closer = "close" in PROGRAMS[p][1]
+        r = mc_impl(ctx, "live_" + p, p, ([] if closer and not fixed else ["LinStrict"]) + BASE_INV, covered, spec="FairSpec",
+                    props=["NoLostWakeup", "Progress"], fixed=fixed, expect_violation=True)
+        if re.search(r"Temporal propert(y|ies) .*violated", r["output"]) or r["violated"]:
+            ctx.violation("X02|model|%s|%s" % (p, "+".join(r["violated"]) or "liveness"),
+                          {"what": "NoLostWakeup / Progress under weak fairness, or an invariant, violated", "tail": r["output"][-2500:]})
         else:
             model["liveness"].append({"program": p, "states": r["distinct"]})
+            (model["weak_holds_with_closer"] if closer else model["strict_holds_without_closer"]).append({"program": p, "states": r["distinct"]})
     if not quick:
         # larger programs without the monitors: three senders / three receivers (/ a closer)
         for p in ("P_3S3R", "P_3S2RC"):
@@ -247,11 +252,11 @@ def run(ctx):
             raise C.ToolError("sensitivity: the mutant without enable() does not violate NoLostWakeupQ")
         model["mutant_without_enable"] = "NoLostWakeupQ violated (%d states)" % r["distinct"]
         r = mc_impl(ctx, "mut_noenable_live", "P_2S2R", [], covered, enable=False, spec="FairSpec", props=["NoLostWakeup"], expect_violation=True)
-        if "Temporal properties were violated" not in r["output"]:
+        if not re.search(r"Temporal property NoLostWakeup was violated", r["output"]):
             raise C.ToolError("sensitivity: the mutant without enable() does not violate the liveness form of NoLostWakeup")
         model["mutant_without_enable_liveness"] = "NoLostWakeup violated"
     # the proposed patch in the model: the strict object is refined with a closer
-    for p in ([] if quick or fixed else ["P_SRCT", "P_S2R2C"]):
+    for p in ([] if quick or fixed else ["P_SRCT"]):
         r = mc_impl(ctx, "fixed_" + p, p, ["LinStrict"] + BASE_INV, covered, fixed=True)
         model["patched_model"].append({"program": p, "states": r["distinct"], "violated": r["violated"]})
     never = [a for a in ALL_ACTIONS if covered.get(a, 0) == 0 and a != "Rest" and not (fixed and a in ("SendPush", "RecvLoadClosed"))]
@@ -265,7 +270,7 @@ def run(ctx):
         scs += export(ctx, "gs_S2R2C", "P_S2R2C", simulate="num=150", fixed=fixed)
     else:
         scs += export(ctx, "g_2S2R", "P_2S2R", fixed=fixed)
-        for p, n in (("P_S2R2C", 1500), ("P_MISC2", 800), ("P_2S2RC", 800), ("P_SRRC", 600), ("P_3S3RC", 800), ("P_S2RR", 600)):
+        for p, n in (("P_S2R2C", 100), ("P_MISC2", 50), ("P_2S2RC", 50), ("P_SRRC", 50), ("P_3S3RC", 50), ("P_S2RR", 50)):     # x 4 workers
             scs += export(ctx, "gs_" + p, p, simulate="num=%d" % n, fixed=fixed)
     for i, s in enumerate(scs):
         s["id"] = i + 1
@@ -281,7 +286,7 @@ def run(ctx):
     for sc, (_, evs) in zip(scs, rep_segs):
         bad = [e for e in evs if e.get("e") == "Obs" and (e["r"] != sc["steps"][e["i"] - 1]["r"] or sorted(e["w"]) != sc["steps"][e["i"] - 1]["w"] or "note" in e)]
         end = [e for e in evs if e.get("e") == "End"][0]
-        if bad or end["extra"] or end["unfinished"] or sorted(end["blocked"]) != sorted(sc["v"]["blocked"]):
+        if bad or end["extra"] or sorted(end["unfinished"]) != sorted(end["blocked"]) or sorted(end["blocked"]) != sorted(sc["v"]["blocked"]):
             obs_mismatch += 1
             sc["obs_mismatch"] = True
             if len(ctx.drift) < 10:
@@ -291,7 +296,7 @@ def run(ctx):
     stf, huf = ctx.path("stress.ndjson"), ctx.path("hunt.ndjson")
     rs = C.run_bin(bindir, "mpmc", ["stress", stf, ctx.seed, 120 if quick else 1200, 15 if quick else 40], timeout=1500)
     stress_sum = json.loads(rs.stdout.strip().splitlines()[-1])
-    rh = C.run_bin(bindir, "mpmc", ["hunt", huf, ctx.seed, 10 ** 7, 4000 if quick else 40000, 1], timeout=600)
+    rh = C.run_bin(bindir, "mpmc", ["hunt", huf, ctx.seed, 10 ** 7, 4000 if quick else 30000, 1], timeout=600)
     hunt_sum = json.loads(rh.stdout.strip().splitlines()[-1])
     if stress_sum.get("hangs"):
         C.log("mpmc: the stress run ended with a receiver that could not be woken (see the Stall events)")
@@ -299,6 +304,7 @@ def run(ctx):
     allrows, origin = [], {}
     for name, rows in parts:
         for i, evs in segments(rows):
+            evs = [e for e in evs if e.get("e") not in ("Obs", "End")]       # replay bookkeeping, not judged
             origin[len(allrows) + 1] = (name, evs)
             allrows += evs
     allf = ctx.path("all.ndjson")
